@@ -261,6 +261,32 @@ void prop_union(const Case& cs) {
   vf::label(std::string("result:") + flavor_name(info_of(r).flavor));
 }
 
+// thorough tier only: one very large sketch per lg_k 19..20 — coupon counts above 2^32/1000 (arithmetic in the compressor's
+// pseudo-phase selection); only the round trip is checked (the pair model would need 20M set insertions)
+void prop_huge(const Case& cs) {
+  int lg_k = static_cast<int>(cs.get("lg_k", 20));
+  uint64_t n = static_cast<uint64_t>(cs.get("n", 20000000));
+  cpc_sketch sk(static_cast<uint8_t>(lg_k));
+  for (uint64_t i = 0; i < n; ++i) sk.update(i);
+  VF_CHECK(sk.get_num_coupons() > 0 && sk.validate(), "huge-validate", "validate() failed");
+  std::vector<uint8_t> bytes;
+  try { auto b = sk.serialize(); bytes.assign(b.begin(), b.end()); }
+  catch (const std::exception& e) {
+    VF_CHECK_K(false, "huge-serialize", "C09|cpc|serialize-throws|coupon-count-above-2^32/1000", "serialize() of a valid sketch (lg_k " << lg_k << ", " << n << " updates, " << sk.get_num_coupons() << " coupons) throws: " << e.what());
+  }
+  cpc_sketch r = cpc_sketch::deserialize(bytes.data(), bytes.size());
+  VF_CHECK(r.get_num_coupons() == sk.get_num_coupons() && r.get_estimate() == sk.get_estimate() && std::string(r.to_string().c_str()) == std::string(sk.to_string().c_str()), "huge-roundtrip", "round trip of the huge sketch differs");
+  auto again = r.serialize();
+  VF_CHECK(again.size() == bytes.size() && std::memcmp(again.data(), bytes.data(), bytes.size()) == 0, "huge-roundtrip-bytes", "re-serialized image differs");
+  vf::label("huge"); vf::nontrivial();
+}
+void enum_huge(std::function<bool(const Case&)> run) {
+  if (vf::env("VF_TIER") != "thorough") return;
+  long w = vf::env_long("VF_WORKER", 0);
+  if (w == 0) { Case c; c.set("lg_k", 20); c.set("n", 20000000); run(c); }
+  if (w == 1) { Case c; c.set("lg_k", 19); c.set("n", 12000000); run(c); }
+}
+
 rc::Gen<Case> gen_sketch() {
   using namespace vf;
   auto opg = choose({
@@ -307,5 +333,5 @@ int main(int argc, char** argv) {
                          "after EVERY update, and validate + re-offering all items to a copy after every op / at every flavor or window-offset change; "
                          "union sub: 2..5 input sketches with unequal lg_k in generated orders, lvalue/rvalue, intermediate results, permuted replay, "
                          "round trip of the result. non-trivial = window offset >= 1 reached (sketch) or inputs with unequal lg_k (union); distinct = distinct case text",
-                         {{"sketch", gen_sketch, prop_sketch, 0.6}, {"deep", gen_deep, prop_sketch, 0.02, 60}, {"large", gen_large, prop_sketch, 0.04, 60}, {"union", gen_union, prop_union, 0.4}});
+                         {{"sketch", gen_sketch, prop_sketch, 0.6}, {"deep", gen_deep, prop_sketch, 0.02, 60}, {"large", gen_large, prop_sketch, 0.04, 60}, {"union", gen_union, prop_union, 0.4}, vf::Sub{"huge", nullptr, prop_huge, 1.0, -1, enum_huge}});
 }
